@@ -819,7 +819,7 @@ package bbolt
 //@   ensures err != nil ==> rb == nil
 
 //@ func Compact$2
-//@   returns (err)
+//@   returns (res)
 //@   props C15
 //@   requires tx != nil && tx.root.tx == tx && dst != nil && len(k) + len(v) >= 0 && size >= 0 && size <= 4611686018427387904 && txMaxSize >= 0
 //@   skip pre/Commit because the destination transaction satisfies Commit's preconditions by the DB invariant (it was obtained from dst.Begin(true) and only used through the public API)
@@ -828,9 +828,9 @@ package bbolt
 //@   skip pre/Put because the bucket reached by descending keys exists in the destination by the order in which walk visits the source (parents first: A-tree)
 //@   skip pre/SetSequence because see pre/Put
 //@   skip pre/keyValue because see pre/Put
-//@   ensures [split] old(size) + len(k) + len(v) > txMaxSize && txMaxSize != 0 && err == nil ==> callstotal("(*Tx).Commit") == old(callstotal("(*Tx).Commit")) + 1 && callstotal("(*DB).Begin") == old(callstotal("(*DB).Begin")) + 1 && size == len(k) + len(v)
+//@   ensures [split] old(size) + len(k) + len(v) > txMaxSize && txMaxSize != 0 && res == nil ==> callstotal("(*Tx).Commit") == old(callstotal("(*Tx).Commit")) + 1 && callstotal("(*DB).Begin") == old(callstotal("(*DB).Begin")) + 1 && size == len(k) + len(v)
 //@   ensures [nosplit] (old(size) + len(k) + len(v) <= txMaxSize || txMaxSize == 0) ==> callstotal("(*Tx).Commit") == old(callstotal("(*Tx).Commit")) && callstotal("(*DB).Begin") == old(callstotal("(*DB).Begin")) && size == old(size) + len(k) + len(v)
 //@   ensures [begindst] callstotal("(*DB).Begin") != old(callstotal("(*DB).Begin")) ==> lastarg("(*DB).Begin", 0) == dst && lastarg("(*DB).Begin", 1)
-//@   ensures [keyvalue] v != nil && len(keys) >= 1 && err == nil ==> callstotal("(*Bucket).Put") == old(callstotal("(*Bucket).Put")) + 1 && lastarg("(*Bucket).Put", 1) == old(bytesval(k)) && lastarg("(*Bucket).Put", 2) == old(bytesval(v)) && callstotal("(*Bucket).CreateBucket") == old(callstotal("(*Bucket).CreateBucket"))
-//@   ensures [bucket] v == nil && err == nil ==> callstotal("(*Bucket).CreateBucket") == old(callstotal("(*Bucket).CreateBucket")) + 1 && lastarg("(*Bucket).CreateBucket", 1) == old(bytesval(k)) && callstotal("(*Bucket).SetSequence") == old(callstotal("(*Bucket).SetSequence")) + 1 && lastarg("(*Bucket).SetSequence", 1) == seq && callstotal("(*Bucket).Put") == old(callstotal("(*Bucket).Put"))
-//@   ensures [fill] v != nil && len(keys) >= 1 && err == nil ==> lastarg("(*Bucket).Put", 0) != 0
+//@   ensures [keyvalue] v != nil && len(keys) >= 1 && res == nil ==> callstotal("(*Bucket).Put") == old(callstotal("(*Bucket).Put")) + 1 && lastarg("(*Bucket).Put", 1) == old(bytesval(k)) && lastarg("(*Bucket).Put", 2) == old(bytesval(v)) && callstotal("(*Bucket).CreateBucket") == old(callstotal("(*Bucket).CreateBucket"))
+//@   ensures [bucket] v == nil && res == nil ==> callstotal("(*Bucket).CreateBucket") == old(callstotal("(*Bucket).CreateBucket")) + 1 && lastarg("(*Bucket).CreateBucket", 1) == old(bytesval(k)) && callstotal("(*Bucket).SetSequence") == old(callstotal("(*Bucket).SetSequence")) + 1 && lastarg("(*Bucket).SetSequence", 1) == seq && callstotal("(*Bucket).Put") == old(callstotal("(*Bucket).Put"))
+//@   ensures [fill] v != nil && len(keys) >= 1 && res == nil ==> lastarg("(*Bucket).Put", 0) != 0
